@@ -41,7 +41,7 @@ def generate_guarded_checking_code(typ):
     cg = generate_checking_code(typ)
     bound = getattr(typ, "bound", None)
     if isinstance(typ, DependentType) and bound is not None:
-        guard = CodeGen("isinstance({arg}, {bound})", bound=bound)
+        guard = generate_checking_code(bound)
         return combine("({} and {})", [guard, cg])
     else:
         return combine("({})", [cg])
